@@ -99,40 +99,52 @@ Inductive event : Type :=
 | EvDrop (b : nat).                       (* the object forgets a block without freeing it (left to the GC) *)
 
 (* environment threaded through one operation: world, remaining oracle answers, remaining
-   co-tenant scripts (one per callback point), trace (newest first) *)
-Record env := mkE { ew : world; eal : list achoice; eadv : list (list costep); eev : list event }.
+   co-tenant scripts — one per io callback point ([eadv]) and one per pool operation ([epool]:
+   the co-tenant may act between any two operations on the shared pool) — and the trace (newest
+   first) *)
+Record env := mkE { ew : world; eal : list achoice; eadv : list (list costep); epool : list (list costep);
+                    eev : list event }.
 
-Definition emit (e : env) (ev : event) : env := mkE (ew e) (eal e) (eadv e) (ev :: eev e).
+Definition emit (e : env) (ev : event) : env := mkE (ew e) (eal e) (eadv e) (epool e) (ev :: eev e).
 Definition pop_choice (e : env) : achoice * env :=
   match eal e with
   | [] => (Fresh [], e)
-  | c :: r => (c, mkE (ew e) r (eadv e) (eev e))
+  | c :: r => (c, mkE (ew e) r (eadv e) (epool e) (eev e))
   end.
-(* mcache.Malloc(size, cap): block of capacity pow2ceil (max size cap) *)
-Definition e_malloc (e : env) (c : N) : env * nat :=
-  let '(ch, e1) := pop_choice e in
-  let '(w', b) := w_alloc (ew e1) (pow2ceil c) ch in
-  (mkE w' (eal e1) (eadv e1) (EvAlloc b :: eev e1), b).
-(* dirtmake.Bytes(len, cap): block of capacity exactly c from the GC heap *)
-Definition e_gcalloc (e : env) (c : N) : env * nat :=
-  let '(ch, e1) := pop_choice e in
-  let '(w', b) := w_gcalloc (ew e1) c ch in
-  (mkE w' (eal e1) (eadv e1) (EvAlloc b :: eev e1), b).
-Definition e_free (e : env) (s : bslice) : env :=
-  mkE (w_free (ew e) s) (eal e) (eadv e)
-      (EvFree (sblk s) (soff s) (scp s) (len (block (wh (ew e)) (sblk s))) :: eev e).
 (* a point where foreign code runs (io.Reader.Read / io.Writer.Write of the user): the
    co-tenant executes its next script *)
 Definition e_callback (e : env) : env :=
   match eadv e with
   | [] => e
-  | s :: r => mkE (co_run (ew e) s) (eal e) r (eev e)
+  | s :: r => mkE (co_run (ew e) s) (eal e) r (epool e) (eev e)
   end.
+(* a pool operation boundary: other users of the pool may have run since the last one *)
+Definition e_poolpoint (e : env) : env :=
+  match epool e with
+  | [] => e
+  | s :: r => mkE (co_run (ew e) s) (eal e) (eadv e) r (eev e)
+  end.
+(* mcache.Malloc(size, cap): block of capacity pow2ceil (max size cap) *)
+Definition e_malloc (e : env) (c : N) : env * nat :=
+  let e0 := e_poolpoint e in
+  let '(ch, e1) := pop_choice e0 in
+  let '(w', b) := w_alloc (ew e1) (pow2ceil c) ch in
+  (mkE w' (eal e1) (eadv e1) (epool e1) (EvAlloc b :: eev e1), b).
+(* dirtmake.Bytes(len, cap): block of capacity exactly c from the GC heap *)
+Definition e_gcalloc (e : env) (c : N) : env * nat :=
+  let '(ch, e1) := pop_choice e in
+  let '(w', b) := w_gcalloc (ew e1) c ch in
+  (mkE w' (eal e1) (eadv e1) (epool e1) (EvAlloc b :: eev e1), b).
+Definition e_free (e : env) (s : bslice) : env :=
+  let e1 := mkE (w_free (ew e) s) (eal e) (eadv e) (epool e)
+                (EvFree (sblk s) (soff s) (scp s) (len (block (wh (ew e)) (sblk s))) :: eev e) in
+  (* the pool is touched only when mcache accepts the buffer *)
+  if is_pow2 (scp s) then e_poolpoint e1 else e1.
 (* copy into block b at offset off; an empty copy touches nothing *)
 Definition e_write (e : env) (b : nat) (off : N) (v : bytes) : env :=
   match v with
   | [] => e
-  | _ => mkE (mkW (write (wh (ew e)) (b, off) v) (wpool (ew e)) (wcot (ew e))) (eal e) (eadv e)
+  | _ => mkE (mkW (write (wh (ew e)) (b, off) v) (wpool (ew e)) (wcot (ew e))) (eal e) (eadv e) (epool e)
              (EvWrite b off (len v) :: eev e)
   end.
 Definition e_read (e : env) (b : nat) (off n : N) : env * bytes :=
@@ -142,7 +154,7 @@ Definition e_read (e : env) (b : nat) (off n : N) : env * bytes :=
    NewBytesWriter target) and lends it *)
 Definition e_lend (e : env) (contents : bytes) (ro : bool) : env * nat :=
   let w := ew e in
-  (mkE (mkW (wh w ++ [contents]) (wpool w) (wcot w)) (eal e) (eadv e) (EvLend (length (wh w)) ro :: eev e),
+  (mkE (mkW (wh w ++ [contents]) (wpool w) (wcot w)) (eal e) (eadv e) (epool e) (EvLend (length (wh w)) ro :: eev e),
    length (wh w)).
 
 (* ---------- the ownership monitor ----------
